@@ -61,7 +61,7 @@ var propertyCanaries = map[string][]string{
 	"C09": {"GOPROTO.accumzero", "GOPROTO.semcap", "GOPROTO.scratch", "GLOBAL.write", "GOPROTO.capture", "GOPROTO.lockpair", "GOPROTO.sibling", "POOL.uaf"},
 	"C12": {"GRAPHINV.prune", "TWIN.sibguard", "GRAPHINV.panicorder", "GRAPHINV.absent", "GRAPHINV.iterreset", "GRAPHINV.converse", "GRAPHINV.uid", "GRAPHINV.iter", "TWIN.sibstate"},
 	"C16": {"DECODE.order", "DECODE.errdrop", "DECODE.mul", "DECODE.selfcmp", "DECODE.clone", "DECODE.fields"},
-	"C17": {"GLOBAL.write", "RESET.fields", "WINDOW.pointwise"},
+	"C17": {"RESET.noleak", "GLOBAL.write", "RESET.fields", "WINDOW.pointwise"},
 	"C18": {"GOPROTO.accumzero", "CONST.stencil", "GOPROTO.sibling"},
 	"C19": {"OPT.limits", "GOPROTO.scratch", "GOPROTO.run", "INIT.state"},
 }
@@ -106,6 +106,7 @@ func init() {
 		{"TWIN.sibguard", "graph/iterator/lines_map.go", "func (l *Lines) Next() bool {\n\tif l.pos >= l.lines {\n\t\treturn false\n\t}\n", "func (l *Lines) Next() bool {\n", func() *core.Result { return twin.Run(twin.Which{SiblingState: []string{"graph/iterator"}}) }},
 		{"CONSTFOLD.underflow", "lapack/gonum/dlassq.go", "abig += (amed * dsbig) * dsbig", "abig += dsbig * dsbig * amed", func() *core.Result { return constfold.Run(def, core.Pkgs("./lapack/gonum")) }},
 		{"GOPROTO.accumzero", "diff/fd/gradient.go", "\tfor i := range dst {\n\t\tdst[i] = 0\n\t}\n\t// Read in all of the results.", "\t// Read in all of the results.", func() *core.Result { return goproto.Run(def, core.Pkgs("./diff/fd")) }},
+		{"RESET.noleak", "dsp/fourier/fourier.go", "\tif dst == nil {\n\t\tdst = make([]float64, t.Len())\n\t} else if len(dst) != t.Len() {\n\t\tpanic(\"fourier: destination length mismatch\")", "\tif dst == nil {\n\t\tdst = t.real\n\t} else if len(dst) != t.Len() {\n\t\tpanic(\"fourier: destination length mismatch\")", func() *core.Result { return dspx.RunNoAlias(def) }},
 		{"WORKSIZE.min", "lapack/gonum/dgels.go", "wsize := max(1, mn+max(mn, nrhs)*nb)", "wsize := max(1, mn+mn*nb)", wsz},
 		{"WORKSIZE.querylen", "lapack/gonum/dormqr.go", "case lwork < max(1, nw) && lwork != -1:\n\t\tpanic(badLWork)", "case lwork < max(1, nw) && lwork != -1:\n\t\tpanic(badLWork)\n\tcase len(tau) != k:\n\t\tpanic(badLenTau)", wsz},
 		{"WORKSIZE.min", "lapack/gonum/dsyev.go", "lworkopt := max(1, (nb+2)*n)", "lworkopt := max(1, (nb+1)*n)", wsz},
